@@ -730,4 +730,52 @@ theorem run_filterR4 {g : Cfg} {db : List Rec} {a : Rec} (ok : FR4OK g db a) {Z 
           rw [List.mem_singleton.1 hs]; exact haf.ev.2⟩⟩) (fun _ _ h => h))
     em evs0 c n0 fuel (Or.inl hst) hem hev0 hsegs hf hlen
 
+theorem FR4OK.front {g : Cfg} {db : List Rec} {a : Rec} (ok : FR4OK g db a) {us : List Rec}
+    (hu : LeftOK (alignedBufsize g.b) us) : FR4OK (g.front us) db a :=
+  ⟨wf_idle ok.wf us hu.1, ok.role, ok.pairs, noiseFits_app hu.2 ok.noise, ok.str, ok.hf, ok.dbody, ok.dfits, ok.ab,
+    ok.hpost, ok.hX, ok.hU, ok.hs⟩
+
+/-- the request (KEEP_CONN) started from any `StartAt` of a chain: it ends parked behind the Data records
+`s₂` it did not consume, its abort record and what followed -/
+theorem serve_filterR4_core {g : Cfg} {db : List Rec} {a : Rec} (ok : FR4OK g db a) (hk : g.p.flags.toNat % 2 = 1)
+    {left : List Rec} (hleft : LeftOK (alignedBufsize g.b) left) {Z : Bytes}
+    (hR : ∀ s2, s2 <:+ db → ∀ e ∈ s2 ++ a :: g.body2, IdleNoise e)
+    (hZ : ∀ s2, s2 <:+ db → GoodNext g.cap g.mc (s2 ++ a :: g.body2) Z)
+    {Lw : Bytes} {evs : List String} {A0 : Nat} {c : Conn} (n0 fuel : Nat)
+    (hLw : Lw = g.L0 ++ idleOwed g.mc left)
+    (hstart : StartAt g.cap g.mc left Lw ((g.hscript, true) :: g.more) g.hs0 evs A0 g.W c)
+    (hf : A0 + 1 ≤ fuel) (hsize : 6 * g.W.length + 26 ≤ 100000) :
+    ∃ c' full d1 s2, runTask fuel c n0 none = (c', "STALL") ∧ Split4 db full d1 s2 ∧
+      Waiting g.cap g.mc (s2 ++ a :: g.body2) ((g.front left).Lf4 full d1 ++ idleOwed g.mc (s2 ++ a :: g.body2))
+        g.more (g.hs0 + 1) (hsEvent g.p.request :: evs) A0 c' := by
+  have okf := ok.front hleft
+  obtain ⟨hst, hsg, hem, hans, hev, hin⟩ := fstage_of_startAt hleft hLw hstart
+  obtain ⟨c', fin, hrun, hres⟩ :=
+    run_filterR4 okf (Z := Z) (fun s2 hs2 => (hZ s2 hs2).1) (fun s2 hs2 => (hZ s2 hs2).2) .pend evs c n0 fuel hst hem hev
+      hsg (by omega) (by rw [hin]; exact hsize)
+  rcases hres with ⟨⟨full, d1, s2⟩, ⟨_, hsp⟩, hkp, hem', hev', hans', hsg', hend⟩ | ⟨_, ⟨full, d1, s2, _, hfu⟩, _, _⟩
+  · have hsuf : s2 <:+ db := ⟨d1, hsp.1.symm⟩
+    have hs2 := hR s2 hsuf
+    rcases hend with ⟨rfl, hp⟩ | ⟨_, hfn⟩
+    · obtain ⟨F, hF, hps, hph, hlg⟩ := hp.pst
+      have hFe : F = serAll (s2 ++ a :: g.body2) := List.append_cancel_right hF
+      subst hFe
+      have hnf : (run .header (serAll (s2 ++ a :: g.body2)) g.mc).st.isFinal = false := (run_idle_out g.mc _ hs2).2.2
+      have hob : (run .header (serAll (s2 ++ a :: g.body2)) (g.front left).mc).out = idleOwed g.mc (s2 ++ a :: g.body2) :=
+        (run_idle_out g.mc _ hs2).1
+      refine ⟨c', full, d1, s2, hrun, hsp, ⟨hph, hnf, hps.rem, hp.inp, by rw [hlg, hob],
+        ⟨(g.front left).Lf4 full d1, by
+          show _ = _ ++ (run .header (serAll (s2 ++ a :: g.body2)) (g.front left).mc).out
+          rw [hob]⟩, hps.stop, hps.ben, hkp.sc, hkp.mx,
+        hkp.hs, ?_, hsg', hem', by omega⟩⟩
+      intro s hs
+      rcases List.mem_cons.1 hs with rfl | hs
+      · exact hkp.ev _ List.mem_cons_self
+      · exact hev' s hs
+    · rw [hfn.em] at hem'; cases hem'
+  · have hnk := hfu.nokeep
+    have e : ((g.front left).withU ((g.front left).U4 a s2)).p = g.p := rfl
+    rw [e] at hnk
+    omega
+
 end Fcgi.E2E
